@@ -126,7 +126,7 @@ class BloomSuite(Suite):
                 if seq[-1][0] != "jacc":
                     have.add(3)
             elif k < 0.74:
-                seq.append(("export", h, rng.choice(["bytes", "file", "fileobj", "hex"])))
+                seq.append(("export", h, rng.choice(["bytes", "file", "fileobj", "hex", "cheader"])))
             elif k < 0.82:
                 seq.append(("load", 4, rng.choice(["bytes", "file", "hex"]), h))
                 have.add(4)
@@ -322,11 +322,29 @@ class BloomSuite(Suite):
                             return fh.read().hex()
 
                     res = call(g)
+                elif chan == "cheader":
+
+                    def c_header():
+                        import re
+
+                        path = os.path.join(tmp, f"exp{len(out)}.h")
+                        obj.export_c_header(path)
+                        with open(path, encoding="utf-8") as fh:
+                            text = fh.read()
+                        body = text[text.index("bloom[] = {") :]
+                        data = "".join(re.findall(r"0x([0-9a-f]{2})", body))
+                        m = re.search(r"number_bits = (\d+);", text)
+                        k = re.search(r"number_hashes = (\d+);", text)
+                        if int(m.group(1)) != obj.number_bits or int(k.group(1)) != obj.number_hashes:
+                            return "BAD-HEADER-CONSTANTS"
+                        return data
+
+                    res = call(c_header)
                 else:
                     res = call(obj.export_hex)
                 d = self.obs(kind, obj, "ok")
                 d["payload"] = ret_str(res)
-                out.append((f"{kind}.export {h} {chan}", d))
+                out.append((f"{kind}.export {h} {'hex' if chan == 'cheader' else chan}", d))
             elif kind_op == "stats":
                 d = self.obs(kind, obj, "None")
                 d["setbits"] = str(obj._cnt_number_bits_set())
